@@ -253,6 +253,13 @@ func (f *frame) havocTo(from *hstate, names map[string]bool) {
 		a1 := vc.lookup(f.st, "alloc", allocSort)
 		if a0 != a1 {
 			f.assume(fmt.Sprintf("(forall ((r Int)) (! (=> (select %s r) (select %s r)) :pattern ((select %s r))))", a0, a1, a1))
+			// the same relative to function entry (transitivity, stated directly: frame proofs relative to entry then need
+			// one instantiation instead of one per intermediate allocation state)
+			if vc.entry != nil {
+				if ae := vc.lookup(vc.entry, "alloc", allocSort); ae != a0 && ae != a1 {
+					f.assume(fmt.Sprintf("(forall ((r Int)) (! (=> (select %s r) (select %s r)) :pattern ((select %s r))))", ae, a1, a1))
+				}
+			}
 			// ground instances for the references the proof keeps coming back to (parameters, results of calls):
 			// they spare the solver the chain of instantiations through every intermediate allocation state
 			for _, r := range vc.pinned {
@@ -547,6 +554,11 @@ func (f *frame) run() {
 			}
 			f.R = vc.define("R.b"+fmt.Sprint(b.Index), "Bool", or(conds...))
 			f.st = vc.join(js)
+			var dom *hstate
+			if d := b.Idom(); d != nil {
+				dom = f.blkSt[d]
+			}
+			f.afterJoin(len(js), dom)
 			if li != nil {
 				f.enterLoop(li, predIdx, conds)
 			} else {
@@ -862,5 +874,30 @@ func (f *frame) backEdge(li *loopInfo, from *ssa.BasicBlock, succIdx int) {
 		env := f.loopEnv(li, st, vals)
 		v := env.tr(li.spec.Decreases.Expr)
 		f.obligeAt(cond, "variant", li.spec.Decreases.Label, li.spec.Decreases.Props, and(sx("<=", "0", li.variant0), sx("<", v.term, li.variant0)), b.Instrs[0].Pos())
+	}
+}
+
+// afterJoin: the allocation state of a join of several paths contains the entry allocation state (every branch does);
+// stated for the joined version directly, with ground instances for the pinned references.
+func (f *frame) afterJoin(n int, dom *hstate) {
+	vc := f.vc
+	if n < 2 || vc.entry == nil || vc.qf > 0 {
+		return
+	}
+	aj := vc.lookup(f.st, "alloc", allocSort)
+	// every path into the join passes through the dominating state (dom) and started at entry: both allocation states
+	// are contained in the joined one
+	for _, st := range []*hstate{vc.entry, dom} {
+		if st == nil {
+			continue
+		}
+		a := vc.lookup(st, "alloc", allocSort)
+		if a == aj {
+			continue
+		}
+		f.assume(fmt.Sprintf("(forall ((r Int)) (! (=> (select %s r) (select %s r)) :pattern ((select %s r))))", a, aj, aj))
+		for _, r := range vc.pinned {
+			f.assume(implies(sx("select", a, r), sx("select", aj, r)))
+		}
 	}
 }
